@@ -108,6 +108,8 @@ def run_history(env, f, key, case):
         if op == n_ops:
             trace.append('stop')
             break
+        n_before = len(f.list_of_points)
+        ids_before = [id(t[0]) for t in f.list_of_points]
         if op == 0:
             x = Point()
             pts.append(x)
@@ -133,6 +135,12 @@ def run_history(env, f, key, case):
                 raise Abort()
             (2 * f).stationary_point()         # the optimum is declared on a rescaled copy: f receives (x*, 0, f*)
             trace.append('(2*f).stationary_point()')
+        # every declaration of a NEW point / stationary point / fixed point records a new sample at a new point (the
+        # quadratic class documents a unique stationary point; a repeated oracle call on a differentiable class is reused)
+        if op in (0, 2, 3, 4) and not (key == 'quad' and op in (2, 4)):
+            grew = len(f.list_of_points) == n_before + 1 and id(f.list_of_points[-1][0]) not in ids_before
+            env.check(grew, "history %s: the declaration did not record a new sample at a new point (%d -> %d samples)"
+                      % (trace, n_before, len(f.list_of_points)), signature="C04:%s:sample-not-recorded:op%d" % (key, op))
     if key == 'linop':
         u = Point()
         f.T.oracle(u)
